@@ -4,6 +4,7 @@ import re
 from ..src import Inconclusive, calls, macros, method_calls, render, strip_refs, walk, walk_with_parents
 from ..tables import IMPL_FILES
 
+TECHNIQUE = "static analysis: who-may-iterate / taint rules over every hash container (syntax tree; thorough tier: type-resolved MIR call facts), who-may-call = empty set for nondeterministic std APIs"
 LEVEL = "proof"
 EXPLANATION = (
     "Output can depend on a hash seed only if the iteration order of a HashMap/HashSet flows into a sequenced sink. R1 finds every hash "
@@ -13,7 +14,8 @@ EXPLANATION = (
     "(any/all/count/min/max, collection into another hash/B-tree container, inserts into a hash container whose key mentions the element). "
     "Flowing into push/extend/combine/format/collect::<Vec>/first-match/break is a violation. R2: who-may-call = ∅ for environment, time, "
     "process, thread, filesystem, RandomState, pointer-to-integer casts and {:p}. R3: the only sorts on data feeding output are stable. "
-    "Every container and use is enumerated, so the clause is decided exhaustively for the source as written.")
+    "Every container and use is enumerated, so the clause is decided exhaustively for the source as written. "
+    " R1 also follows type aliases of hash containers, hash-typed struct fields and locals bound from them. Thorough tier: R4 takes every order-exposing call on a std hash container from the type-resolved MIR and classifies the ones R1 did not see.")
 NOT_DECIDED = ["determinism of syn/quote/proc-macro2 themselves (trusted)", "span information (not part of the token text)"]
 
 POINT = {"insert", "contains", "contains_key", "get", "get_mut", "remove", "len", "is_empty", "entry", "clear", "reserve", "get_or_insert_with", "capacity", "take", "replace"}
@@ -442,11 +444,20 @@ def r2(chk):
                 chk.bad("R2", f"{f}:use {it['tree']}", f, it["line"], "import of a nondeterministic std API")
             if it["k"] == "Static" and it.get("mut"):
                 chk.bad("R2", f"{f}:static mut {it['name']}", f, it["line"], "mutable global state (cross-expansion dependence)")
+            if it["k"] == "Static" and re.search(r"\b(Atomic\w+|Mutex|RwLock|RefCell|Cell|OnceCell|OnceLock|Lazy|LazyLock|LazyCell)\b", it.get("ty", "") + " " + render(it["expr"]) if isinstance(it.get("expr"), dict) else it.get("ty", "")):
+                chk.bad("R2", f"{f}:static {it['name']}", f, it["line"], "global state with interior mutability survives between expansions in one compiler process: the output depends on what was expanded before",
+                        found=it.get("ty"))
             if it["k"] == "ItemMacro" and it["mac"]["last"] in ("thread_local", "lazy_static"):
                 chk.bad("R2", f"{f}:{it['mac']['last']}!", f, it["line"], "global state")
         for fi in repo.fns(f):
             for node in walk(fi.body):
                 n += 1
+                if node["k"] == "ItemStmt" and isinstance(node.get("item"), dict) and node["item"].get("k") == "Static":
+                    it_ = node["item"]
+                    if it_.get("mut") or re.search(r"\b(Atomic\w+|Mutex|RwLock|RefCell|Cell|OnceCell|OnceLock|Lazy|LazyLock|LazyCell)\b", str(it_.get("ty", ""))):
+                        chk.bad("R2", f"{fi.qual}:static {it_['name']}", f, node["line"], "global mutable state survives between expansions in one compiler process: the output depends on what was expanded before", found=it_.get("ty"))
+                if node["k"] == "Macro" and node["last"] in ("thread_local", "lazy_static"):
+                    chk.bad("R2", f"{fi.qual}:{node['last']}!", f, node["line"], "global state")
                 if node["k"] == "Path" and NONDET.search(node["path"]):
                     chk.bad("R2", f"{fi.qual}:{node['path']}", f, node["line"], "nondeterministic std API reachable from expansion", found=node["path"])
                 if node["k"] == "Cast" and re.search(r"\*(const|mut)", render(node["expr"]) + node["ty"]) or (node["k"] == "Cast" and node["ty"].replace(" ", "") in ("usize", "u64") and re.search(r"as\*(const|mut)", render(node["expr"]).replace(" ", ""))):
